@@ -7,7 +7,7 @@ import ast
 from ..cfg import CFG
 from ..execmodel import R, run_execute
 from ..values import Const, Str, Sym, tagof
-from .c03 import rule_after_accept, rule_guards
+from .c03 import rule_after_accept, rule_coherence, rule_guards
 from .common import site_loc, text_of, traces
 
 EXPLANATION = (
@@ -223,6 +223,7 @@ RULES = [
     ("C07.b", rule_sqlstate, ("quick", "thorough")),
     ("C07.c", rule_after_accept, ("quick", "thorough")),
     ("C07.d", rule_guards, ("quick", "thorough")),
+    ("C07.h", rule_coherence, ("quick", "thorough")),
     ("C07.e", rule_undefined_variable, ("quick", "thorough")),
     ("C07.f", rule_first_engine_call, ("quick", "thorough")),
 ]
